@@ -11,7 +11,7 @@ use pyxis::grammar;
 
 use crate::case::{Case, CaseReport, Params, Verdict};
 use crate::plan::{any_order, Tier};
-use crate::project::{gen_valid, GenCfg};
+use crate::project::{gen_valid, Decl, Field, Func, GenCfg, ItemKind, Project, Ty, Vft};
 use crate::rng::Rng;
 use crate::run::{ApiOp, Blob, BuildSpec, Entry, Node, Outcome, RunResult, World};
 use crate::sched::{OrderSpec, SchedSpec};
@@ -610,6 +610,267 @@ fn apply_byte_fault(rng: &mut Rng, kind: &str, files: &mut [(String, Vec<u8>)]) 
     true
 }
 
+/// Semantic knobs: the abstract project is bent before it is printed, so the input stays
+/// well-formed text but describes something contradictory or extreme. Returns what was done.
+fn bend_project(rng: &mut Rng, p: &mut Project) -> Vec<String> {
+    let mut done = vec![];
+    let types: Vec<usize> = (0..p.items.len())
+        .filter(|i| matches!(p.items[*i].kind, ItemKind::Type { .. }))
+        .collect();
+    let enums: Vec<usize> = (0..p.items.len())
+        .filter(|i| matches!(p.items[*i].kind, ItemKind::Enum { .. }))
+        .collect();
+    for _ in 0..rng.range(1, 3) {
+        let what = rng.below(16);
+        match what {
+            0..=10 if !types.is_empty() => {
+                let i = *rng.pick(&types);
+                let n_items = p.items.len();
+                let ptr = p.ptr;
+                let ItemKind::Type {
+                    fields,
+                    vftable,
+                    size,
+                    align,
+                    packed,
+                    flags,
+                    impl_funcs,
+                    singleton,
+                    ..
+                } = &mut p.items[i].kind
+                else {
+                    continue;
+                };
+                match what {
+                    0 => {
+                        // Derived vftable shorter / longer / reordered w.r.t. the base's.
+                        if let Some(v) = vftable {
+                            if !v.funcs.is_empty() {
+                                match rng.below(3) {
+                                    0 => {
+                                        let k = rng.below(v.funcs.len());
+                                        v.funcs.remove(k);
+                                    }
+                                    1 => v.funcs.reverse(),
+                                    _ => {
+                                        let f = v.funcs[0].clone();
+                                        v.funcs.push(f);
+                                    }
+                                }
+                                done.push("knob:vftable_functions_changed".to_string());
+                            }
+                        }
+                    }
+                    1 => {
+                        // Vftable size / indices that contradict the function list.
+                        if let Some(v) = vftable {
+                            v.size = Some(rng.below(v.funcs.len() + 2));
+                            for (k, f) in v.funcs.iter_mut().enumerate() {
+                                if rng.chance(1, 2) {
+                                    f.index = Some((k + 3).saturating_sub(rng.below(6)));
+                                }
+                            }
+                            done.push("knob:vftable_size_or_indices".to_string());
+                        }
+                    }
+                    2 => {
+                        // Bases in odd places and of odd types.
+                        if !fields.is_empty() {
+                            let k = rng.below(fields.len());
+                            fields[k].base = true;
+                            match rng.below(5) {
+                                0 => fields[k].ty = Ty::Prim("u32"),
+                                1 => fields[k].ty = fields[k].ty.clone().cptr(),
+                                2 => fields[k].ty = fields[k].ty.clone().arr(2),
+                                3 => fields[k].name = "_".into(),
+                                _ => {}
+                            }
+                            if rng.chance(1, 2) {
+                                fields.rotate_left(1);
+                            }
+                            done.push("knob:odd_base_field".to_string());
+                        }
+                    }
+                    3 => {
+                        *packed = true;
+                        if rng.chance(1, 2) {
+                            *align = Some(*rng.pick(&[1usize, 3, 8]));
+                        }
+                        done.push("knob:packed_and_align".to_string());
+                    }
+                    4 => {
+                        *size = Some(match rng.below(4) {
+                            0 => 0,
+                            1 => 1,
+                            2 => size.unwrap_or(8).saturating_sub(1),
+                            _ => size.unwrap_or(8) + 3,
+                        });
+                        done.push("knob:contradicting_size".to_string());
+                    }
+                    5 => {
+                        *align = Some(*rng.pick(&[0usize, 3, 5, 6, 12, 1 << 20, 1 << 40]));
+                        done.push("knob:odd_alignment".to_string());
+                    }
+                    6 => {
+                        flags.defaultable = true;
+                        flags.copyable = true;
+                        done.push("knob:defaultable_anything".to_string());
+                    }
+                    7 => {
+                        // Addresses that collide with or sit exactly at the previous end.
+                        for f in fields.iter_mut() {
+                            if rng.chance(1, 2) {
+                                f.address = Some(*rng.pick(&[0usize, 1, 2, 4, 8, 16, 3]));
+                            }
+                        }
+                        fields.push(Field {
+                            vis: true,
+                            name: "zero_sized".into(),
+                            ty: Ty::Prim("u8").arr(0),
+                            address: Some(rng.below(32)),
+                            base: false,
+                            doc: None,
+                        });
+                        done.push("knob:odd_addresses".to_string());
+                    }
+                    8 => {
+                        // Functions with odd signatures.
+                        let f = Func {
+                            vis: true,
+                            name: (*rng.pick(&["odd", "vftable", "get", "new", "as_ref", "drop"])).to_string(),
+                            recv: if rng.chance(1, 2) { Some(false) } else { None },
+                            args: vec![
+                                ("v".into(), Ty::Prim("void")),
+                                ("v".into(), Ty::Prim("u8").arr(0)),
+                                ("self_".into(), Ty::Item(i).cptr()),
+                            ],
+                            ret: Some(Ty::Prim("void")),
+                            address: if rng.chance(3, 4) { Some(0x10) } else { None },
+                            index: if rng.chance(1, 4) { Some(2) } else { None },
+                            cc: Some(*rng.pick(&["C", "thiscall", "system"])),
+                            doc: Some(" has \"quotes\" and a # and a \\ backslash".into()),
+                        };
+                        if rng.chance(1, 2) {
+                            impl_funcs.push(f);
+                        } else if let Some(v) = vftable {
+                            let mut f = f;
+                            f.address = None;
+                            v.funcs.push(f);
+                        } else {
+                            let mut f = f;
+                            f.address = None;
+                            *vftable = Some(Vft {
+                                funcs: vec![f],
+                                size: None,
+                            });
+                        }
+                        done.push("knob:odd_function".to_string());
+                    }
+                    9 => {
+                        *singleton = Some(*rng.pick(&[0usize, 1, usize::MAX >> 1]));
+                        fields.clear();
+                        done.push("knob:singleton_on_empty_type".to_string());
+                    }
+                    _ => {
+                        // A field that embeds something odd by value.
+                        let t = rng.below(n_items);
+                        fields.push(Field {
+                            vis: true,
+                            name: format!("odd{}", fields.len()),
+                            ty: match rng.below(4) {
+                                0 => Ty::Item(t),
+                                1 => Ty::Item(t).arr(rng.below(3)),
+                                2 => Ty::Prim("void"),
+                                _ => Ty::Item(i).cptr().arr(ptr),
+                            },
+                            address: None,
+                            base: rng.chance(1, 3),
+                            doc: None,
+                        });
+                        done.push("knob:odd_embedded_field".to_string());
+                    }
+                }
+            }
+            11..=13 if !enums.is_empty() => {
+                let i = *rng.pick(&enums);
+                let other = *rng.pick(&enums);
+                let ItemKind::Enum {
+                    base,
+                    variants,
+                    flags,
+                    singleton,
+                } = &mut p.items[i].kind
+                else {
+                    continue;
+                };
+                match what {
+                    11 => {
+                        *base = match rng.below(6) {
+                            0 => Ty::Prim("u8").cptr(),
+                            1 => Ty::Prim("u32").arr(2),
+                            2 => Ty::Prim("void"),
+                            3 => Ty::Prim("bool"),
+                            4 => Ty::Prim("f64"),
+                            _ => Ty::Item(other),
+                        };
+                        done.push("knob:odd_enum_base".to_string());
+                    }
+                    12 => {
+                        match rng.below(3) {
+                            0 => variants.clear(),
+                            1 => {
+                                for v in variants.iter_mut() {
+                                    v.1 = Some(7);
+                                    v.2 = true;
+                                }
+                            }
+                            _ => {
+                                if let Some(v) = variants.first_mut() {
+                                    v.1 = Some(i64::MAX);
+                                }
+                            }
+                        }
+                        flags.defaultable = rng.chance(1, 2);
+                        done.push("knob:odd_enum_variants".to_string());
+                    }
+                    _ => {
+                        *singleton = Some(0);
+                        flags.defaultable = true;
+                        done.push("knob:enum_flags".to_string());
+                    }
+                }
+            }
+            14 => {
+                // An impl block for something that is not a type (an enum, an extern type).
+                let cands: Vec<usize> = (0..p.items.len())
+                    .filter(|i| !matches!(p.items[*i].kind, ItemKind::Type { .. }))
+                    .collect();
+                if let Some(&i) = cands.first() {
+                    let m = p.items[i].module;
+                    let name = p.items[i].name.clone();
+                    p.modules[m].trailer.push_str(&format!(
+                        "impl {name} {{\n    #[address(0x10)]\n    pub fn on_non_type(&self) -> u32;\n}}\n"
+                    ));
+                    done.push("knob:impl_for_non_type".to_string());
+                }
+            }
+            _ => {
+                // Declaration order and duplicates of whole declarations.
+                let m = rng.below(p.modules.len());
+                if !p.modules[m].order.is_empty() {
+                    let k = rng.below(p.modules[m].order.len());
+                    let d = p.modules[m].order[k].clone();
+                    if matches!(d, Decl::Impl(_) | Decl::Backend(_)) || rng.chance(1, 3) {
+                        p.modules[m].order.push(d);
+                        done.push("knob:declaration_repeated".to_string());
+                    }
+                }
+            }
+        }
+    }
+    done
+}
+
 /// Does the (parsed) input ask for a table larger than `LARGE_TABLE` slots?
 fn asks_for_large_table(m: &grammar::Module) -> bool {
     fn large(attrs: &grammar::Attributes) -> bool {
@@ -647,8 +908,17 @@ pub fn generate(seed: u64, tier: Tier) -> Case {
         let cfg = GenCfg::swarm(&mut rng, max_items, max_modules);
         gen_valid(&mut rng, &cfg, ptr)
     };
+    let mut project = project;
     let base_files = project.files();
     let base = World::from_files(ptr, base_files.clone());
+    // Half of the cases bend the project itself (semantic knobs) before any byte is damaged.
+    let mut knobs = vec![];
+    let base_files = if rng.chance(1, 2) {
+        knobs = bend_project(&mut rng, &mut project);
+        project.files()
+    } else {
+        base_files
+    };
     let mut files: Vec<(String, Vec<u8>)> = base_files
         .into_iter()
         .map(|(p, t)| (p, t.into_bytes()))
@@ -662,9 +932,13 @@ pub fn generate(seed: u64, tier: Tier) -> Case {
         }
         v
     };
-    let nfaults = *rng.pick(&[1usize, 1, 1, 2, 2, 3]);
+    let nfaults = if knobs.is_empty() {
+        *rng.pick(&[1usize, 1, 1, 2, 2, 3])
+    } else {
+        *rng.pick(&[0usize, 0, 0, 1])
+    };
     let mut world = base.clone();
-    let mut applied: Vec<String> = vec![];
+    let mut applied: Vec<String> = knobs;
     let mut ops: Option<Vec<ApiOp>> = None;
     for _ in 0..nfaults {
         let kind = *rng.pick(&enabled);
